@@ -6,6 +6,7 @@ package main
 // unknown is retried once in a fresh process with plain assertions.
 
 import (
+	"os"
 	"bufio"
 	"fmt"
 	"io"
@@ -223,6 +224,13 @@ func (s *Solver) Check(pc []*Term, extra ...*Term) Result {
 	if r == Unknown {
 		all := append(append([]*Term(nil), pc...), lits...)
 		r = s.checkFresh(all)
+	}
+	if el := time.Since(start); el > 3*time.Second && os.Getenv("ZZ_SLOW") != "" {
+		all := append(append([]*Term(nil), pc...), lits...)
+		f, _ := os.CreateTemp("", "slow-*.smt2")
+		f.WriteString(s.Script(all))
+		f.Close()
+		fmt.Fprintf(os.Stderr, "slow query %.1fs result=%v script=%s\n", el.Seconds(), r, f.Name())
 	}
 	s.Time += time.Since(start)
 	s.Queries++
